@@ -35,8 +35,8 @@ MUTANTS = [
     # ---- C05
     ("C05", "branch-arms-swapped-template", "R05.1", D + "Effects/Branch.py", "f\"BRANCH({cond}, {self.then.effect_var()}, {self.otherwise.effect_var()})\"", "f\"BRANCH({cond}, {self.otherwise.effect_var()}, {self.then.effect_var()})\""),
     ("C05", "selection-arms-swapped-callback", "R05.1", T, "                self.add_op(Branch(name, cond, then_seq, else_seq))", "                self.add_op(Branch(name, cond, else_seq, then_seq))"),
-    ("C05", "for-step-before-body", "R05.1", T, "self.add_op(Sequence(f\"seq\", flatten_list(items[4]) + [items[3]])),", "self.add_op(Sequence(f\"seq\", [items[3]] + flatten_list(items[4]))),"),
-    ("C05", "for-init-inside", "R05.1", T, "                    [items[1], self.add_op(ForLoop(f\"for\", items[2], compound))],", "                    [self.add_op(ForLoop(f\"for\", items[2], compound)), items[1]],"),
+    ("C05", "for-step-before-body", "R05.1", T, "self.take_pending_effects(flatten_list(items[4])) + [items[3]],", "[items[3]] + self.take_pending_effects(flatten_list(items[4])),"),
+    ("C05", "for-init-inside", "R05.1", T, "self.add_op(Sequence(f\"seq\", [items[1], loop]))", "self.add_op(Sequence(f\"seq\", [loop, items[1]]))"),
     ("C05", "seqn-count-plus-one", "R05.2", D + "Effects/Sequence.py", "f'SEQN({len(self.effects)}, ", "f'SEQN({len(self.effects) + 1}, "),
     ("C05", "seqn-reversed", "R05.2", D + "Effects/Sequence.py", "\", \".join([e.effect_var() for e in self.effects])", "\", \".join([e.effect_var() for e in reversed(self.effects)])"),
     ("C05", "sub-assign-add", "R05.4", T, "                    f\"op_SUB\",\n                    self.promotion_cast(assign.dest),\n                    self.promotion_cast(assign.src),\n                    ArithmeticType.SUB,", "                    f\"op_SUB\",\n                    self.promotion_cast(assign.dest),\n                    self.promotion_cast(assign.src),\n                    ArithmeticType.ADD,"),
